@@ -122,6 +122,19 @@ impl SimParserStream {
                                 }
                             }
                         }
+                        if let Some(expr) = &plan.cfg.tags_filter {
+                            // what `filter_run` does with `--tags`: scenario, rule and feature tags together
+                            let ftags = f.tags.clone();
+                            let keep = |sc: &gherkin::Scenario, rtags: &[String]| {
+                                let all: Vec<String> = sc.tags.iter().chain(rtags).chain(&ftags).cloned().collect();
+                                crate::plan::eval_tag_expr(expr, &all)
+                            };
+                            f.scenarios.retain(|sc| keep(sc, &[]));
+                            for r in &mut f.rules {
+                                let rtags = r.tags.clone();
+                                r.scenarios.retain(|sc| keep(sc, &rtags));
+                            }
+                        }
                     }
                     Ok(f)
                 }
